@@ -315,7 +315,11 @@ func (w *World) metamorphicPass(baseDir string, opts RunOpts, variant string) bo
 				break
 			}
 			if digestTx(d) != keep[k].dig {
-				w.violate("metamorphic.failed-tx-effect", []string{"C05"}, h, "tx %d of block %d answers %s in the full history and %s when failed transactions before it are removed (variant %s; log %q)", keep[k].idx, h, keep[k].dig, digestTx(d), variant, d.Log)
+				props := []string{"C05"}
+				if w.tamperedAt[h] {
+					props = append(props, "C03") // a tx whose signature does not verify was among the removed ones
+				}
+				w.violate("metamorphic.failed-tx-effect", props, h, "tx %d of block %d answers %s in the full history and %s when failed transactions before it are removed (variant %s; log %q)", keep[k].idx, h, keep[k].dig, digestTx(d), variant, d.Log)
 				return true
 			}
 			k++
